@@ -179,7 +179,10 @@ def ser_cue(rng, big=False):
             toff = top - unit * rng.randint(0, 4)
         first0 = rng.random() < 0.4
         ni = rng.choice([1, 2, 3]); ni = max(ni, 2 if first0 else 1)
-        isrc = rng.choice([bytes(12), b'AA6Q72000047', bytes(12), b'zz1X29912345', b'AA-6Q7-20-00' if rng.random() < 0.1 else bytes(12)])
+        isrc = rng.choice([bytes(12), b'AA6Q72000047', bytes(12), b'zz1X29912345', b'AA-6Q7-20-00' if rng.random() < 0.1 else bytes(12),
+                           # valid UTF-8 whose multi-byte characters straddle the ISRC parser's cut points
+                           rng.choice(['A\u00e96Q7200004', 'AA6Q\u00e9200004', 'AA6Q72\u00e90004', '\u20acA6Q720004']).encode() if rng.random() < 0.3 else bytes(12)])
+        assert len(isrc) == 12
         out += be(8, toff) + bytes([k + 1]) + isrc + bytes([rng.choice([0, 0x80, 0x40, 0xC0, 0x3F])]) + bytes(13) + bytes([ni])
         rel = 0
         for j in range(ni):
@@ -394,6 +397,11 @@ def cue_edge_texts():
         out.append((588 * 1000, 'CATALOG ' + q + '\nTRACK 01 AUDIO\nINDEX 01 00:00:00\n'))
         out.append((588 * 1000, 'TRACK 01 AUDIO\nISRC ' + q + '\nINDEX 01 00:00:00\n'))
         out.append((1001, 'CATALOG ' + q + '\nTRACK 01 AUDIO\nISRC ' + q + '\nINDEX 01 0\n'))
+    # ISRC values with a multi-byte character across each of the parser's cut points (2, 5 and 7 bytes in), dashed and plain
+    for v in ['A\u00e96Q7200004', 'AA6Q\u00e9200004', 'AA6Q72\u00e90004', 'A\u00e9-6Q7-20-0004', 'AA-6Q\u00e9-20-0004', 'AA-6Q7-2\u00e9-0004',
+              '\u00e9A6Q7200004', 'AA6Q7200004\u00e9', '\u20ac6Q72000047', 'AA\u20ac72000047']:
+        out.append((588 * 1000, 'TRACK 01 AUDIO\nISRC ' + v + '\nINDEX 01 00:00:00\n'))
+        out.append((588 * 1000, 'TRACK 01 AUDIO\nISRC ' + dq + v + dq + '\nINDEX 01 00:00:00\n'))
     for cmd in ['CATALOG', 'TRACK', 'INDEX', 'ISRC', 'FLAGS', 'FILE', '']:
         for arg in ['', ' ', '  ', ' 1', ' 01', ' 01 ', ' 01  00:00:00', ' :', ' ::', ' 01 :', ' 01 ::', ' 01 0:0:0', ' 01 00:00',
                     ' 01 00:00:00:00', ' + +', ' +1 +0:+0:+0']:
